@@ -81,14 +81,15 @@ type Event struct {
 
 // Config tunes one run.
 type Config struct {
-	MaxSteps  int           // hard cap on scheduling steps (0: 1e6)
-	Horizon   time.Duration // simulated time after which the run is stopped (0: 1h)
-	StickyPct int           // probability (0..100) to keep running the same task at a yield
-	LockYield int           // percentage (0..100) of lock acquisitions that are scheduling points
-	Verbose   bool          // keep a textual event log
-	SpinSteps int           // consecutive non-idle steps after which the clock is advanced by force (0: 3000)
-	Profile   bool          // count parks by reason into Counters
-	NoPreempt bool          // never preempt at lock yields (operation-granularity scheduling)
+	MaxSteps   int           // hard cap on scheduling steps (0: 1e6)
+	Horizon    time.Duration // simulated time after which the run is stopped (0: 1h)
+	StickyPct  int           // probability (0..100) to keep running the same task at a yield
+	LockYield  int           // percentage (0..100) of lock acquisitions that are scheduling points
+	Verbose    bool          // keep a textual event log
+	SpinSteps  int           // consecutive non-idle steps after which the clock is advanced by force (0: 3000)
+	TraceSteps bool          // log every scheduling step (with Verbose)
+	Profile    bool          // count parks by reason into Counters
+	NoPreempt  bool          // never preempt at lock yields (operation-granularity scheduling)
 }
 
 // Sim is one simulated execution.
@@ -925,6 +926,9 @@ func (s *Sim) Run(main func()) {
 				s.Preempt++
 			}
 			s.mix(uint64(c.t.ID))
+			if s.cfg.TraceSteps {
+				s.logBuf = append(s.logBuf, fmt.Sprintf("%6d %8.3fs   run %s (%s) of %d candidates", s.Steps, s.Now().Seconds(), c.t.Name, c.t.why, len(cs)))
+			}
 			s.last = c.t
 			s.mu.Lock()
 			c.t.state = stRunning
